@@ -171,7 +171,8 @@ func (vf *VersionedFetcher) Init(
 		identity,
 		vf.store,
 		documentACP,
-		index,
+		// the transient store holds the document only, no secondary index entries
+		immutable.None[client.IndexDescription](),
 		col,
 		fields,
 		filter,
